@@ -904,11 +904,11 @@ impl<'a, 'b> Gen<'a, 'b> {
                 let b = self.expr(scope, outer, Ty::Bool, depth + 1, allow_sub);
                 if !self.cfg.arith_identity {
                     // `x or x`, `x and x`, `x and true`, `x or false` simplify to their operand too
-                    let neutral = E::Lit(Val::Bool(op == "and"), Ty::Bool);
-                    if a == b || b == neutral {
+                    // (a constant operand is neutral or absorbing: `x and true`, `false and x`, ..)
+                    if a == b || matches!(b, E::Lit(Val::Bool(_), _)) {
                         return a;
                     }
-                    if a == neutral {
+                    if matches!(a, E::Lit(Val::Bool(_), _)) {
                         return b;
                     }
                 }
@@ -1343,7 +1343,13 @@ impl<'a, 'b> Gen<'a, 'b> {
         if self.cfg.ungrouped_items && mode != 0 && self.t.chance(1, 8) {
             let c = scope[self.t.pick(scope.len())].clone();
             let e = Self::col_expr(&c);
-            if !group_by.contains(&e) {
+            // (an aggregate output column of a derived table is accepted ungrouped by the binder of
+            // the unchanged tree: open finding F-C17-ungrouped-derived-aggregate)
+            let derived_agg = from.iter().any(|f| match &f.source {
+                Source::Derived(q) if f.alias == c.alias => c.name.strip_prefix('x').and_then(|i| i.parse::<usize>().ok()).and_then(|i| q.select.get(i)).is_some_and(|(x, _)| !matches!(x, E::Col(..))),
+                _ => false,
+            });
+            if !group_by.contains(&e) && !derived_agg {
                 let at = self.t.pick(select.len() + 1);
                 select.insert(at, (e, c.ty));
             }
@@ -1673,6 +1679,16 @@ pub fn reorder_query(t: &mut Tape, td: &TableDef) -> Option<Query> {
         limit: if t.chance(1, 3) { Some([3u64, 6, 100][t.pick(3)]) } else { None },
         offset: None,
     };
+    let mut inner = inner;
+    if inner.limit.is_some() {
+        // which rows pass the LIMIT must not depend on how ties are broken: every other column
+        // follows as a further key (rows that tie on all columns are equal)
+        for k in 0..n {
+            if k != k1 && k != k2 {
+                inner.order_by.push((k, false));
+            }
+        }
+    }
     let alias = "d1".to_string();
     let select: Vec<(E, Ty)> = td.cols.iter().enumerate().map(|(i, c)| (E::Col(alias.clone(), format!("x{i}"), c.ty), c.ty)).collect();
     let order_by = match t.pick(6) {
